@@ -8,6 +8,24 @@ ENGINES = [
 ]
 NOT_APPLICABLE = {}
 CLAIMED = {
+ "C01": {
+  "engine": "tlc + csl-conform (spec/lib/CDDL.tla, ConwaySchema.tla, CDDLGen.tla, CBOR.tla; spec/mc/MC_Codec.tla; spec/trace/Trace_Codec.tla; harness codec driver)",
+  "technique": "the Conway wire format is a schema value in TLA+ (ConwaySchema) with an interpreter (CDDL.tla); TLC enumerates each-choice instances of 20+ typed schemas (one variant / optional field / integer width class / collection size class away from a default, to schema depth 3 or 5) and checks on the model that each conforms; the real decoders take each instance (and typed values constructed first through the API, and every transaction the real builder emitted), and the trace spec demands decode(encode(v)) = v, byte-identical re-encoding, and identical behaviour of the hex entry points, with the encoded bytes parsed by CBOR.tla",
+  "text": "About 3000 (quick) / 30000 schema instances over 32 decoder types plus constructed values with integer widths at every CBOR head boundary and text/bytes at the 64-byte chunk boundary, plus about 450 / 3500 built transactions.",
+  "note": "Trusted: TLC, CBOR.tla, CDDL.tla + ConwaySchema.tla (transcribed; model-checked Gen => Conforms), the library's PartialEq for value equality (byte identity is checked independently), harness logging (--selftest corrupts recorded re-encodings). Blocks and protocol parameter updates are not generated. A spec-generated instance the decoder refuses is a note, not a failure.",
+ },
+ "C02": {
+  "engine": "tlc + csl-conform (spec/lib/CBOR.tla total parser with error classes, spec/mc/MC_Mutate.tla, spec/trace/Trace_Codec.tla; harness parse driver with abort/resume protocol)",
+  "technique": "TLC parses each generated instance with the total TLA+ CBOR parser and emits the span of every node; the harness applies every single structural mutation at every node and hands the result to the real byte / hex / text entry points; every outcome is an event: Err is counted, Panic / process abort is a violation classified by the spec's own parse of the input (well-formed, eof-*, huge-*, reserved-ai, bad-chunk ...), and every Ok must re-serialize to bytes that CBOR.tla parses as exactly one well-formed item; all inputs of length <= 2 are swept for 30 decoders; 42 text entry points get ~45 malformed variants each",
+  "text": "About 2.7 million parser calls (quick) on mutations of ~600 instances; exhaustive for inputs of <= 2 bytes; thorough multiplies instances and text variants by 4-10.",
+  "note": "Trusted: TLC, CBOR.tla, harness logging and the pending-file protocol that attributes a process death to its input (--selftest corrupts recorded re-serializations). Known finding (dependency cbor_event, not repairable in this repository with a small patch): a string head declaring a huge length aborts / panics in Vec::with_capacity. Nesting deeper than 256 not decided.",
+ },
+ "C03": {
+  "engine": "tlc + csl-conform (spec/lib/CDDL.tla, ConwaySchema.tla, CBOR.tla; spec/trace/Trace_Emit.tla, Trace_Codec.tla; harness builder / sendall / codec drivers)",
+  "technique": "TLC is the CDDL validator: every byte string the real library emits (built and signed transactions from the builder, Plutus and send-all drivers; the serialization of every typed value from the codec driver) is parsed by CBOR.tla and matched against ConwaySchema in the write profile: map keys, arities, tags, integer ranges, byte sizes, shortest definite heads, tag 258 and pairwise-distinct elements on sets, canonical asset-map order, positive quantities, no empty optional collections; the first failing path and rule is the signature",
+  "text": "About 1100 (quick) / 7000 built transactions and 3000 / 30000 typed values.",
+  "note": "Trusted: TLC, CBOR.tla, the ConwaySchema transcription (from memory of the Conway CDDL; rules marked UNSURE are permissive: governance action bodies, parameter updates), harness logging (--selftest rewrites a set tag). Values that keep a non-canonical original encoding are out of scope by the statement.",
+ },
  "C04": {
   "engine": "tlc + csl-conform (spec/lib/Encodings.tla, CBOR.tla; spec/mc/MC_FixedTx.tla; spec/trace/Trace_FixedTx.tla; hashlib digest oracle)",
   "technique": "TLC generates, from a tree description of transactions, every single non-canonical encoding choice (and checks on the model that each is well-formed and carries the same data) crossed with add-signature histories; the real FixedTransaction is loaded and signed; the trace spec keeps the original bytes, the touched keys and the added witnesses as state and compares, after every step, the spans of body / auxiliary data / every untouched witness field in the re-serialization with the spans in the input, the touched key-witness fields with original-then-added elements, and the reported hash with Blake2b-256 of the original body span (hashlib); Plutus datums in random non-canonical encodings must re-encode and hash to their input bytes",
